@@ -4,11 +4,11 @@ From Coq Require Import NArith String.
 From SS.gen Require Import SrcFacts.
 
 (* Reading the structured lines back recovers the visible skeleton, for ALL trees and option
-   sets; fuel only bounds the nesting depth, [ht_stack t] is an explicit sufficient bound
-   (out-of-fuel is None, which the statement excludes). *)
-Theorem C18_roundtrip : forall o t n,
-  ht_stack t <= n -> read_back_fuel n (fmt_stack_sl o t) = Some (skeleton_visible o t).
-Proof. exact roundtrip_fuel. Qed.
+   sets.  [read_back] takes its fuel from the text itself (1 + longest marker chain; fuel only
+   bounds the nesting depth) and never runs out on formatted text. *)
+Theorem C18_roundtrip : forall o t,
+  read_back (fmt_stack_sl o t) = Some (skeleton_visible o t).
+Proof. exact roundtrip. Qed.
 Print Assumptions C18_roundtrip.
 
 (* The strings the code composes (marker strings prepended, startswith / strip tests on the
@@ -33,10 +33,9 @@ Theorem C18_ascii_homomorphic : forall o t,
 Proof. exact ascii_homomorphic. Qed.
 Print Assumptions C18_ascii_homomorphic.
 
-Theorem C18_hidden_iff : forall o r fs lf er n,
-  ht_stack (Stk r fs lf er) <= n ->
+Theorem C18_hidden_iff : forall o r fs lf er,
   exists lf' er',
-    read_back_fuel n (fmt_stack_sl o (Stk r fs lf er))
+    read_back (fmt_stack_sl o (Stk r fs lf er))
     = Some (header_text r,
             SkStack (map (sk_of_frame o) (filter (fun f => negb (f_hide f) || show_hidden o) fs)) lf' er')
   /\ forall f, sk_of_frame o f
@@ -93,7 +92,7 @@ Proof. exact F12_refuted. Qed.
 Print Assumptions C18_F12_refuted.
 
 (* a non-trivial tree: frame with a context that has an inner stack, a hidden child context, a
-   stub and a populated child stack; it meets the fuel hypothesis with n = 3 and reads back *)
+   stub and a populated child stack *)
 Definition ex_frame (cs : list context) : frame :=
   Frm (a "f") None (Some (a "m")) (a "x.py") 3%N (a "return 1") [] false false cs.
 Definition ex_ctx (h : bool) (inn : option stack) (ks : list child) : context :=
@@ -105,7 +104,6 @@ Definition ex_tree : stack :=
                     KStk (Stk (Some (a "<t>")) [ex_frame []] None (Some [a "ValueError: x" ++ nl]))]]]
       None None.
 Example C18_roundtrip_example :
-  ht_stack ex_tree <= 3 /\
   read_back (fmt_stack_sl {| M_Format.ascii := false; show_ctx := true; show_hidden := false |} ex_tree)
   = Some (skeleton_visible {| M_Format.ascii := false; show_ctx := true; show_hidden := false |} ex_tree)
   /\ List.length (fmt_stack_sl {| M_Format.ascii := false; show_ctx := true; show_hidden := false |} ex_tree) = 15.
